@@ -180,6 +180,110 @@ void add_pod(const Options& o, std::vector<Item>& items, const std::string& name
 }
 #endif
 
+#if defined(MODE_C15)
+// The register is the object, not its address: an object destroyed and another one constructed in the same storage
+// (a local in a loop, a re-used slot) is a new register.  k modifications before and after the re-construction.
+template<class W>
+void reuse_body(int k)
+{
+    void* mem = operator new(sizeof(W));
+    W* w = new (mem) W(Pod{5, 5});
+    for (int i = 0; i < k; i++) w->store(Pod{10 + i, 10 + i});
+    Pod v = w->load();
+    MC_CHECK(v.a == (k ? 10 + k - 1 : 5) && v.a == v.b, "register-value", "load() returned (%d,%d) on the first object", v.a, v.b);
+    int helper = spawn([w] { (void)w->load(); });
+    join(helper);
+    w->~W();
+    w = new (mem) W(Pod{7, 7});
+    for (int i = 0; i < k; i++) w->store(Pod{20 + i, 20 + i});
+    int want = k ? 20 + k - 1 : 7;
+    v = w->load();
+    MC_CHECK(v.a == want && v.b == want, "register-value",
+             "load() on an object constructed where another one had been destroyed returned (%d,%d), expected (%d,%d)", v.a, v.b, want, want);
+    int h2 = spawn([w, want] {
+        Pod x = w->load();
+        MC_CHECK(x.a == want && x.b == want, "register-value", "load() by another thread returned (%d,%d), expected (%d,%d)", x.a, x.b, want, want);
+    });
+    join(h2);
+    w->~W();
+    operator delete(mem);
+}
+template<class W>
+void add_reuse(const Options& o, std::vector<Item>& items, const std::string& name)
+{
+    for (int k = 0; k <= 2; k++) {
+        Item it;
+        it.name = name + " | construct, store x" + std::to_string(k) + ", load (two threads), destroy; construct in the same storage, store x" +
+                  std::to_string(k) + ", load (two threads)";
+        it.body = [k] { reuse_body<W>(k); };
+        it.bounds = hx::tier_bounds(o, 1, 1);
+        items.push_back(it);
+    }
+}
+#endif
+#if defined(MODE_C02) || defined(MODE_C01)
+// Two wrappers of one type: a modification of A whose functor modifies B (nested, cross-object) while another thread
+// reads B under a shared handle / through read().  Each object's own lock must be taken, whatever the nesting.
+template<class W>
+void nested_body(int reader_kind)
+{
+    hx::win_reset();
+    W* A = new W(0);
+    W* B = new W(0);
+    {
+        int t1 = spawn([A, B] {
+            A->modify([B](Pair& x) {
+                hx::WriteWin w(&x, "outer modify of A");
+                ++x.a;
+                B->modify([](Pair& y) {
+                    hx::WriteWin w2(&y, "nested modify of B");
+                    ++y.a;
+                    point();
+                    ++y.b;
+                });
+                ++x.b;
+            });
+        });
+        int t2 = spawn([B, reader_kind] {
+            if (reader_kind == 0) {
+                auto h = B->lock_shared();
+                (void)hx::read_pair(*h, "shared handle on B");
+            } else if (reader_kind == 1) {
+                B->modify([](Pair& y) {
+                    hx::WriteWin w2(&y, "modify of B by another thread");
+                    ++y.a;
+                    point();
+                    ++y.b;
+                });
+            } else {
+                B->read([](const Pair& y) { (void)hx::read_pair(y, "read() of B"); });
+            }
+        });
+        join(t1);
+        join(t2);
+    }
+    int want = reader_kind == 1 ? 2 : 1;
+    int vb = hx::read_pair(*B->lock_shared(), "final read of B");
+    MC_CHECK(vb == want, "lost-update", "B is %d after %d modifications", vb, want);
+    int va = hx::read_pair(*A->lock_shared(), "final read of A");
+    MC_CHECK(va == 1, "lost-update", "A is %d after one modification", va);
+    delete A;
+    delete B;
+}
+template<class W>
+void add_nested(const Options& o, std::vector<Item>& items, const std::string& name)
+{
+    static const char* kn[] = {"lock_shared on B", "modify of B", "read() of B"};
+    for (int k = 0; k < 3; k++) {
+        Item it;
+        it.name = "two " + name + " objects | A.modify(functor calls B.modify) | " + kn[k];
+        it.body = [k] { nested_body<W>(k); };
+        it.bounds = hx::tier_bounds(o, 3, 6);
+        items.push_back(it);
+    }
+}
+#endif
+
 void add_item(const Options& o, std::vector<Item>& items, const Prog& p, int Pq, int Pt)
 {
     Item it;
@@ -237,6 +341,13 @@ void make_items(const Options& o, std::vector<Item>& items)
     add_pod<lg::atomic_guarded<Pod>>(o, items, "atomic_guarded<Pod>", 3);
     add_pod<lg::guarded<Pod>>(o, items, "guarded<Pod>", 2);
     add_pod<lg::ordered_guarded<Pod, std::shared_mutex>>(o, items, "ordered_guarded<Pod,shared_mutex>", 2);
+    add_reuse<lg::atomic_guarded<Pod>>(o, items, "atomic_guarded<Pod>");
+    add_reuse<lg::guarded<Pod>>(o, items, "guarded<Pod>");
+    add_reuse<lg::ordered_guarded<Pod, std::shared_mutex>>(o, items, "ordered_guarded<Pod,shared_mutex>");
+#endif
+#if defined(MODE_C02) || defined(MODE_C01)
+    add_nested<lg::ordered_guarded<Pair, std::shared_mutex>>(o, items, "ordered_guarded<Pair,shared_mutex>");
+    add_nested<lg::ordered_guarded<Pair, std::mutex>>(o, items, "ordered_guarded<Pair,mutex>");
 #endif
     g_insts = all_instances();
     for (int ii = 0; ii < (int)g_insts.size(); ii++) {
